@@ -2,6 +2,7 @@ package props
 
 import (
 	"fmt"
+	"runtime"
 	"sort"
 	"sync"
 	"time"
@@ -17,7 +18,7 @@ import (
 func init() {
 	Register(&Prop{ID: "C20",
 		Meta: Meta{Stages: 2, Level: "exploration", Race: true,
-			Rule: "worker built with the Go race detector (on the seeded, single-P runtime: the happens-before analysis is unaffected, interleavings are the simulator's); 3-8 goroutines issue drawn public operations against ONE client: Start, Client, Protocol, NegotiatedVersion, ReattachConfig, ID, Exited, Dispense, calls on dispensed clients, broker NextId/Accept/Dial with distinct IDs on the host broker and, through plugin-side commands, on the plugin broker, Ping, and in half of the runs Kill (or a plugin-side GRPCServer stop via the controller) racing the operations in flight; net/rpc, gRPC, gRPC+mux; in a fifth of the runs the plugin fails to start (exits early, closes stderr, bad handshake, silent) and 2-5 goroutines use the client-level operations and Kill; schedule and wake-up order noise everywhere. Oracle: no race report whose stack contains a go-plugin frame (reports confined to harness, grpc-go or yamux are printed, not counted), no panic, no call hangs, and the multiset of NextId results on each broker has no duplicate"},
+			Rule: "worker built with the Go race detector (on the seeded, single-P runtime: the happens-before analysis is unaffected, interleavings are the simulator's); the process-wide list of managed clients (CleanupClients while other goroutines create managed clients); 3-8 goroutines issue drawn public operations against ONE client: Start, Client, Protocol, NegotiatedVersion, ReattachConfig, ID, Exited, Dispense, calls on dispensed clients, broker NextId/Accept/Dial with distinct IDs on the host broker and, through plugin-side commands, on the plugin broker, Ping, and in half of the runs Kill (or a plugin-side GRPCServer stop via the controller) racing the operations in flight; net/rpc, gRPC, gRPC+mux; in a fifth of the runs the plugin fails to start (exits early, closes stderr, bad handshake, silent) and 2-5 goroutines use the client-level operations and Kill; schedule and wake-up order noise everywhere. Oracle: no race report whose stack contains a go-plugin frame (reports confined to harness, grpc-go or yamux are printed, not counted), no panic, no call hangs, and the multiset of NextId results on each broker has no duplicate"},
 		Plan: func(tier string, seed uint64, stage int, prev []*h.Result) []*k.Spec {
 			if stage > 0 {
 				// shutdown placed at every statement of an operation in flight (no
@@ -35,6 +36,23 @@ func init() {
 			var pre []*k.Spec
 			if tier != "selftest" {
 				pre = killRaceSpecs("C20", tier, seed, 0, nil)
+			}
+			if tier != "selftest" {
+				// the process-wide list of managed clients: CleanupClients against
+				// goroutines that keep creating managed clients
+				nm := 6
+				if tier == "thorough" {
+					nm = 150
+				}
+				for v := 0; v < nm; v++ {
+					s := sp("C20", fmt.Sprintf("managed-list/%d", v), seed+uint64(v)*7919, cp(c03Confs[v%2], "race", "1", "managed", "1"))
+					// (yields only, no sleeps: inside the bubble every advance of the
+					// clock is a barrier that orders all goroutines - synctest tells the
+					// race detector so - and two accesses separated by one are no race)
+					s.HotPermille, s.DelayClass = 0, ""
+					s.Focus = "client.go:CleanupClients"
+					pre = append(pre, s)
+				}
 			}
 			return append(pre, seeded("C20", seed, n, func(i int, sd uint64) *k.Spec {
 				s := &k.Spec{Seed: sd, Params: cp(c03Confs[i%3], "race", "1", "killracing", []string{"0", "1"}[k.H(sd, "kr", 0)%2])}
@@ -131,9 +149,75 @@ func runC20Failing(r *h.Run, kind string) {
 	time.Sleep(5 * time.Second)
 }
 
+// runC20Managed: three running managed clients; CleanupClients runs while two
+// goroutines keep creating managed clients (never started) and a third reads
+// the state of the running ones.
+func runC20Managed(r *h.Run) {
+	w := r.W
+	base := r.ConfFromParams()
+	ctx := "conf=" + base.String() + " managed-list"
+	var cls []*plugin.Client
+	for i := 0; i < 3; i++ {
+		c := base
+		c.Name = fmt.Sprintf("plugin%d", i)
+		c.Managed = true
+		r.InstallPlugin(&c)
+		cl := r.NewClient(c)
+		if o := r.DoNoHang("Client", 120*time.Second, ctx, func() (any, error) { return cl.Client() }); o.Err != nil || o.Hung {
+			r.Violate("setup", "managed client "+ctx, fmt.Sprint(o.Err))
+			return
+		}
+		cls = append(cls, cl)
+	}
+	var wg sync.WaitGroup
+	for g := 0; g < 3; g++ {
+		wg.Add(1)
+		go k.Trap(func() {
+			defer wg.Done()
+			for i := 0; i < 12; i++ {
+				c := base
+				c.Name, c.Path, c.Managed = fmt.Sprintf("never-started-%d", i), "/bin/never-started", true
+				r.NewClient(c)
+				for y := w.Range("spin/gap", 4); y > 0; y-- {
+					runtime.Gosched()
+				}
+			}
+		})
+	}
+	wg.Add(1)
+	go k.Trap(func() {
+		defer wg.Done()
+		for i := 0; i < 6; i++ {
+			for _, cl := range cls {
+				cl.Exited()
+				cl.ID()
+			}
+			runtime.Gosched()
+		}
+	})
+	o := r.Do("CleanupClients", 150*time.Second, func() (any, error) { plugin.CleanupClients(); return nil, nil })
+	wg.Wait()
+	if o.Hung {
+		r.Violate("hang", "op=CleanupClients "+ctx, r.HostStacks("goplugin"))
+		return
+	}
+	for i, cl := range cls {
+		if p := w.ProcByName(fmt.Sprintf("plugin%d", i)); p != nil && p.Alive() {
+			r.Violate("process-left-behind", ctx, fmt.Sprintf("managed client %d was running when CleanupClients was called and is still running after it returned", i))
+		}
+		_ = cl
+	}
+	w.Probe("managed-list.checked")
+	r.Do("CleanupClients#2", 150*time.Second, func() (any, error) { plugin.CleanupClients(); return nil, nil })
+}
+
 func runC20(r *h.Run) {
 	if r.Spec.P("killrace", "") != "" {
 		runKillRace(r, "C20")
+		return
+	}
+	if r.Spec.P("managed", "") == "1" {
+		runC20Managed(r)
 		return
 	}
 	if f := r.Spec.P("failing", ""); f != "" {
